@@ -3,6 +3,7 @@
 
 mod c05;
 mod c05b;
+mod c16;
 mod harness;
 
 use mc_core::{Report, Tier};
@@ -19,6 +20,7 @@ fn main() {
         let mut tasks = harness::Tasks::new(cli.tier, cli.seed);
         match cli.property.as_str() {
             "C05" => c05::run_group(&mut tasks, group),
+            "C16" => c16::run_group(&mut tasks, group),
             other => mc_core::machinery_error(&format!("mc-codec worker does not serve {other}")),
         }
         let ctx = tasks.run();
@@ -28,6 +30,7 @@ fn main() {
     let report = Report::new(&cli);
     let groups: Vec<String> = match cli.property.as_str() {
         "C05" => c05::GROUPS.iter().map(|s| s.to_string()).collect(),
+        "C16" => c16::GROUPS.iter().map(|s| s.to_string()).collect(),
         other => mc_core::machinery_error(&format!("mc-codec does not serve property {other}")),
     };
     let only = cli.extra.get("group").cloned();
@@ -45,6 +48,14 @@ fn main() {
             report.set_rule("one case = one byte string decoded as one type: no panic / abort, peak allocation <= 4 MiB + 64 x input length, and if decoding succeeds over a consumed prefix p then re-encoding the result gives exactly p; valid encodings decode to an equal value consuming everything");
             report.assume("values of types without PartialEq are compared through their encodings");
             report.assume("group elements, proofs and keys come from seeded fixtures");
+        }
+        "C16" => {
+            report.sample(json!({"type": "Amount", "text": "18446744073709.551616", "expected": "rejected (one micro CCD above the largest amount)"}));
+            report.sample(json!({"type": "BTreeSet<u16>", "derived_by": "adjacent entries swapped", "expected": "rejected"}));
+            report.set_technique("small-scope value enumeration per contract-side Serial/Deserial type with the exhaustive byte neighbourhood of every encoding (as C05) incl. the contextual size-length codecs and every adjacent swap / duplication in ordered collections; all strings up to length 5/6 over a per-grammar alphabet plus boundary literals against independently written recognisers of the documented amount / duration / name grammars; print-parse round trips on boundary values; every single-character substitution of base58check addresses; all pairs of a boundary alphabet for checked arithmetic against 128-bit arithmetic");
+            report.set_rule("one case = one byte string decoded, one candidate text parsed, or one arithmetic operation; verdicts must agree with the reference (round trip / canonical re-encoding / grammar / 128-bit arithmetic)");
+            report.assume("duration strings whose components or sum exceed 64 bits are outside the claim (observation O4)");
+            report.assume("hash collections have no canonical encoding (iteration order); only round trip and totality are required of them");
         }
         _ => {}
     }
